@@ -167,3 +167,75 @@ Fixpoint rrun_snaps (h : Z) (s : lstate) (ops : list rop) : list (list (Z * list
   end.
 
 Definition sum_sizes (l : list lfile) : Z := fold_right (fun f a => f_size f + a) 0 l.
+
+(** * Several loggers in one directory
+
+    A log file's name is program.host.user.timestamp.pid.log; a logger's
+    program is its prefix (the main logger: <program>; a secondary logger:
+    <program>-<name>).  listLogFiles (file.go:283-310) parses every name and
+    keeps the files whose parsed Program field *equals* the logger's prefix:
+    the main logger's prefix is a proper prefix of every secondary logger's,
+    and "audit" of "audit-x", so anything weaker than equality mixes them up.
+    gcOldFiles lists with that filter, selects, and removes by name. *)
+Record dfile := mkD { d_prog : list byte; d_file : lfile }.
+
+Definition is_prog (p : list byte) (x : dfile) : bool := bytes_eqb (d_prog x) p.
+
+(** listLogFiles of the logger with prefix [p] *)
+Definition list_files (p : list byte) (d : list dfile) : list lfile :=
+  map d_file (filter (is_prog p) d).
+
+Definition stamp_in (l : list lfile) (f : lfile) : bool :=
+  existsb (fun g => f_stamp g =? f_stamp f) l.
+
+(** gcOldFiles of the logger with prefix [p] on the whole directory: only files
+    it listed and did not select are removed (by name = program + time stamp). *)
+Definition gc_dir (p : list byte) (bound : Z) (d : list dfile) : list dfile :=
+  let kept := gc bound (list_files p d) in
+  filter (fun x => negb (is_prog p x) || stamp_in kept (d_file x)) d.
+
+(** The loggers of a process: prefix and own state; their files together are
+    the directory. *)
+Definition mstate := list (list byte * lstate).
+
+Definition flat_dir (ms : mstate) : list dfile :=
+  concat (map (fun ps => map (mkD (fst ps)) (dir (snd ps))) ms).
+
+Definition set_dir (s : lstate) (d : list lfile) : lstate :=
+  mkState d (is_open s) (nbytes s) (last_rot s) (maxsz s) (syncw s) (ubytes s) (ucount s).
+
+Definition on_logger (p : list byte) (f : lstate -> lstate) (ms : mstate) : mstate :=
+  map (fun ps => if bytes_eqb (fst ps) p then (fst ps, f (snd ps)) else ps) ms.
+
+Inductive mop :=
+| MLog (p : list byte) (now1 now2 id len : Z)
+| MSetMax (m : Z)               (* LogFileMaxSize is one variable for all loggers *)
+| MGc (p : list byte) (bound : Z)
+| MSnap.                        (* Flush() reaches every logger *)
+
+Definition mstep (h : Z) (ms : mstate) (o : mop) : mstate :=
+  match o with
+  | MLog p n1 n2 id len => on_logger p (do_log n1 n2 h id len) ms
+  | MSetMax m => map (fun ps => (fst ps, rstep h (snd ps) (RSetMax m))) ms
+  | MGc p b =>
+      let d' := gc_dir p b (flat_dir ms) in
+      map (fun ps => (fst ps, set_dir (snd ps) (list_files (fst ps) d'))) ms
+  | MSnap => map (fun ps => (fst ps, do_flush (snd ps))) ms
+  end.
+
+(** per logger: the files on disk oldest first, and how many files its
+    listLogFiles returns *)
+Definition msnapshot (ms : mstate) : list (list (Z * list Z) * Z) :=
+  let d := flat_dir ms in
+  map (fun ps => (snapshot (snd ps), Z.of_nat (length (list_files (fst ps) d)))) ms.
+
+Fixpoint mrun_snaps (h : Z) (ms : mstate) (ops : list mop) : list (list (list (Z * list Z) * Z)) :=
+  match ops with
+  | [] => []
+  | o :: tl =>
+      let ms' := mstep h ms o in
+      match o with
+      | MGc _ _ | MSnap => msnapshot ms' :: mrun_snaps h ms' tl
+      | _ => mrun_snaps h ms' tl
+      end
+  end.
